@@ -11,8 +11,9 @@ from . import tlc
 
 VERIF = tlc.VERIF
 REPO = os.environ.get("VERIF_REPO", "/repo")
-EVIDENCE_DIR = os.path.join(VERIF, "evidence")
-REPLAY_DIR = os.path.join(VERIF, "replays")
+# mutation / seeded-change runs redirect their outputs so that the committed evidence always stems from /repo itself
+EVIDENCE_DIR = os.environ.get("VERIF_EVIDENCE_DIR") or os.path.join(VERIF, "evidence")
+REPLAY_DIR = os.environ.get("VERIF_REPLAY_DIR") or os.path.join(VERIF, "replays")
 FINDINGS_FILE = os.path.join(VERIF, "known_findings.json")
 GUARD = "SKACTIVEML_VERIF"
 
